@@ -44,12 +44,14 @@ import (
 	"strconv"
 	"strings"
 	"sync"
+	"sync/atomic"
 	"time"
 
 	lunar_messages "lunar/engine/messages"
 	"lunar/engine/streams"
 	stream_config "lunar/engine/streams/config"
 	lunar_context "lunar/engine/streams/lunar-context"
+	processorqueue "lunar/engine/streams/processors/queue"
 	stream_types "lunar/engine/streams/types"
 	context_manager "lunar/toolkit-core/context-manager"
 	"lunar/toolkit-core/verifhook"
@@ -311,6 +313,85 @@ flow:
 	}
 }
 
+// ---------------------------------------------------------------------------- arbiter rounds
+//
+// {"op":"arbiter","ms":<rounds>,"point":"loop-watcher"|"drain-watcher"}: the arbitration primitive of the real
+// Request object under true concurrency.  Each round = one history: a fresh Request (NewRequest), a waiter in
+// Request.Wait, and two parties released by a spin barrier that do exactly what the processing loop
+// (StartProcessing, then SetProcessedSuccess), the TTL watcher (StartProcessing, then SetProcessedTimeout) and the
+// drain (StopAll: StartProcessing, then SetProcessedTimeout) do with a request, at the same instant.  A second
+// WaitGroup.Done kills the process (the parent records `crash`).
+func arbiter(sc Scenario, tr *tracer) {
+	rounds, pairing := sc.Steps[0].Ms, sc.Steps[0].Point
+	ttl := time.Duration(sc.Config.TTLs) * time.Second
+	seed := uint64(time.Now().UnixNano())
+	rnd := func() int { seed = seed*6364136223846793005 + 1442695040888963407; return int(seed>>33) % 64 }
+	for k := 0; k < rounds; k++ {
+		tr.mu.Lock()
+		tr.start = time.Now()
+		tr.mu.Unlock()
+		tr.add(vh.Ev{"ev": "reset", "name": sc.Name, "gated": false, "ttl": int(ttl.Milliseconds()), "slack": sc.Config.SlackMs,
+			"qsize": 1, "qmax": 1, "qwin": 1000}, false)
+		api := stream_types.NewRequestAPIStream(lunar_messages.OnRequest{ID: "r1", SequenceID: "r1", Method: "GET", URL: "api.test/x"},
+			lunar_context.NewMemoryState[[]byte]())
+		tr.add(vh.Ev{"ev": "arrive", "id": "r1", "prio": 0}, true)
+		req := processorqueue.NewRequest(0, ttl, api)
+		tr.add(vh.Ev{"ev": "enq", "id": "r1"}, true)
+		done := make(chan struct{})
+		go func() {
+			out := "blocked"
+			if req.Wait() {
+				out = "allowed"
+			}
+			tr.add(vh.Ev{"ev": "verdict", "id": "r1", "out": out}, true)
+			close(done)
+		}()
+		var barrier atomic.Int32
+		d1, d2 := rnd(), rnd()
+		meet := func(spin int) {
+			barrier.Add(1)
+			for barrier.Load() < 2 {
+			}
+			for i := 0; i < spin; i++ {
+				barrier.Load()
+			}
+		}
+		var wg sync.WaitGroup
+		wg.Add(2)
+		if pairing == "drain-watcher" {
+			tr.add(vh.Ev{"ev": "drain"}, true)
+		}
+		go func() { // the processing loop admitting the request / the loop draining on shutdown
+			defer wg.Done()
+			meet(d1)
+			if req.StartProcessing() {
+				if pairing == "drain-watcher" {
+					req.SetProcessedTimeout()
+				} else {
+					tr.add(vh.Ev{"ev": "quota", "id": "r1", "ok": true}, true)
+					tr.add(vh.Ev{"ev": "grant", "id": "r1"}, true)
+					req.SetProcessedSuccess()
+				}
+			}
+		}()
+		go func() { // the TTL watcher
+			defer wg.Done()
+			meet(d2)
+			if req.StartProcessing() {
+				tr.add(vh.Ev{"ev": "expire", "id": "r1"}, true)
+				req.SetProcessedTimeout()
+			}
+		}()
+		wg.Wait()
+		select {
+		case <-done:
+		case <-time.After(2 * time.Second):
+		}
+		tr.add(vh.Ev{"ev": "end"}, true)
+	}
+	os.Exit(0)
+}
+
 // ---------------------------------------------------------------------------- child: one scenario
 
 var pointEvent = map[string]string{
@@ -327,6 +408,9 @@ func child(scPath, tracePath string) {
 		vh.Die("create trace: %v", err)
 	}
 	tr := &tracer{f: f, start: time.Now()}
+	if len(sc.Steps) > 0 && sc.Steps[0].Op == "arbiter" {
+		arbiter(sc, tr)
+	}
 	gs := newGates()
 	slack := time.Duration(sc.Config.SlackMs) * time.Millisecond
 	ttl := time.Duration(sc.Config.TTLs) * time.Second
